@@ -226,8 +226,8 @@ def families(tier):
                 "k3 == 0 or k3 == 1 or 5 <= k3 <= 8 or k3 == %d" % nk]
         parts = parts_product(k1=(0, 1, 4, 5), k2=range(nk))
     else:
-        pre += ["s1 == 0"]
-        parts = parts_product(k1=range(nk), k2=range(nk), k3=range(nk), s2=(0, 1))
+        pre += ["k4 == %d" % nk, "n4 == 0", "s4 == 0", "s1 == 0", "s3 == 0"]
+        parts = parts_product(k1=range(nk), k2=range(nk))
     return [Family(name="listen", fn="tpl_listen", params=P, pre=pre, parts=parts,
                    twin_pre=["k1 == 5", "k2 == 1", "k3 == 0", "s2 == 1", "s3 == 0"],
                    twin_args=[0, 5, 0, 1, 1, 2, 0, 0, 0, 0, nk, 0])]
